@@ -9,6 +9,7 @@ mod fam_integr;
 mod fam_panic;
 mod fam_tokenfee;
 mod mon;
+mod mon_c02;
 mod mon_c03;
 mod mon_c15;
 mod mon_c17;
@@ -73,6 +74,7 @@ fn main() {
             let mut rng = Rng::new(seed ^ 0x5EED_0000 ^ prop.bytes().fold(0u64, |a, b| a.wrapping_mul(131).wrapping_add(b as u64)));
             let mut rep = mon::Report::default();
             match prop {
+                "C02" => mon_c02::run(&mut rng, n, &mut rep),
                 "C03" => mon_c03::run(&mut rng, n, &mut rep),
                 "C15" => mon_c15::run(&mut rng, n, &mut rep),
                 "C17" => mon_c17::run(&mut rng, n, &mut rep),
